@@ -17,6 +17,12 @@ def _ref_hashes(tbl):
     return H
 
 
+def _sx_hash(x):
+    if "a" in x:
+        return hashlib.sha256(bytes([1]) + bytes(x["a"])).digest()
+    return hashlib.sha256(bytes([2]) + _sx_hash(x["l"]) + _sx_hash(x["r"])).digest()
+
+
 def sig(e):
     s = {"event": e.get("k")}
     try:
@@ -35,6 +41,8 @@ def sig(e):
                     s["what"] = "slot"
         elif e.get("k") == "curry":
             s["nargs"] = len(e["args"])
+            ref = _sx_hash(e["built"])
+            s["wrong"] = ",".join(f for f in ("h", "built_h", "built_c", "enc_h") if bytes(e[f]) != ref)
     except Exception:
         pass
     return s
@@ -57,12 +65,12 @@ def run(tier):
     rnd = random.Random(chk.seed)
     # M + G. (spec, cfg, fraction of the emitted histories that is replayed)
     runs = [("MC_TreeHashCurry.tla", "MC_TreeHashCurry_quick.cfg" if quick else "MC_TreeHashCurry.cfg", 1.0),
-            ("MC_TreeHash.tla", "MC_TreeHash_atoms1.cfg" if quick else "MC_TreeHash_atoms2.cfg", 0.4 if quick else 1.0),
+            ("MC_TreeHash.tla", "MC_TreeHash_atoms1.cfg" if quick else "MC_TreeHash_atoms2.cfg", 0.4 if quick else 0.5),
             ("MC_TreeHash.tla", "MC_TreeHash_dag3v.cfg", 0.06 if quick else 1.0)]
     if not quick:
         runs += [("MC_TreeHash.tla", "MC_TreeHash_dag2full.cfg", 1.0),
-                 ("MC_TreeHash.tla", "MC_TreeHash_dag3full.cfg", 0.5),
-                 ("MC_TreeHash.tla", "MC_TreeHash_dag4one.cfg", 0.5)]
+                 ("MC_TreeHash.tla", "MC_TreeHash_dag3full.cfg", 0.3),
+                 ("MC_TreeHash.tla", "MC_TreeHash_dag4one.cfg", 0.3)]
     sims = [] if quick else [("MC_TreeHash.tla", "MC_TreeHash_dag5sim.cfg", 500, 16)]
     paths = []
     replayed = 0
@@ -158,4 +166,31 @@ def run(tier):
     chk.assumptions = ["SHA-256 via JDK override", "clvmr Allocator / serialisers are trusted (node tables are logged through Allocator::atom / sexp)",
                        "restore_checkpoint is never applied to an allocator whose nodes are in a live TreeCache (append-only allocator model)"]
     chk.extra["exhaustive"] = False
+    return chk.finish()
+
+
+def replay(path):
+    """re-run the events of a replay file (node table + calls, or curry inputs) on the current tree and validate them again"""
+    wd = vlib.workdir("C17")
+    vlib.EVID = os.path.join(wd, "replay-evidence")  # a replay must not overwrite the evidence of the last run
+    chk = vlib.Check("C17", "quick")
+    cases = os.path.join(wd, "replay-cases.ndjson")
+    n = 0
+    with open(cases, "w") as f:
+        for it in json.load(open(path)):
+            e = it.get("case", {})
+            if e.get("k") == "hist":
+                f.write(json.dumps({"k": "table", "tbl": e["tbl"], "ops": [{"op": o["op"], "n": o["n"]} for o in e["ops"]]}) + "\n")
+                n += 1
+            elif e.get("k") == "curry":
+                f.write(json.dumps({"k": "curry", "p": e["p"], "args": e["args"]}) + "\n")
+                n += 1
+            elif e.get("k") == "pre":
+                n += 1  # the table is logged by every harness run
+    if not n:
+        raise ToolError("no replayable event in %s" % path)
+    t = os.path.join(wd, "replayed.ndjson")
+    vlib.harness(["treehash", "--cases", cases, "--seed", chk.seed, "--out", t])
+    validate_parallel("Trace_TreeHash.tla", [t], chk, "treehash-replay", sig_fn=sig, jobs=1, classes=["C17"])
+    chk.rule = "replay of %d recorded events" % n
     return chk.finish()
